@@ -172,6 +172,25 @@ Theorem setdefault_absent_inserts : forall (K V : Type) (keqb : K -> K -> bool) 
 Proof. exact setdefault_absent_inserts_r. Qed.
 Print Assumptions setdefault_absent_inserts.
 
+(* the default yielded for an absent key is a FRESH one (default_factory() is called on every miss): mutating it
+   in place (OMutate k f: v = c[k]; v.append(..)) leaves the container unchanged, and every later miss yields the
+   pristine default d0 again *)
+Theorem default_is_fresh : forall (K V : Type) (keqb : K -> K -> bool) (lower : K -> K),
+  (forall a b : K, reflect (a = b) (keqb a b)) ->
+  forall (c : cid K V) (k : K) (f : V -> option V) (d0 v' : V),
+  reachable K V keqb lower c -> cls_ok K V c (Some d0) -> ci_contains K V keqb lower c k = false -> f d0 = Some v' ->
+  step K V keqb lower c (OMutate k f) = (c, EOk RNone) /\
+  (forall k' : K, ci_contains K V keqb lower c k' = false -> ci_getitem K V keqb lower c k' = EOk d0).
+Proof. exact default_is_fresh_r. Qed.
+Print Assumptions default_is_fresh.
+(* mutating a stored value in place touches neither keys nor spellings nor order *)
+Theorem mutate_keeps_keys : forall (K V : Type) (keqb : K -> K -> bool) (lower : K -> K)
+  (c : cid K V) (k : K) (f : V -> option V),
+  c_keys K V (fst (step K V keqb lower c (OMutate k f))) = c_keys K V c /\
+  ci_iter K V (fst (step K V keqb lower c (OMutate k f))) = ci_iter K V c.
+Proof. exact Proofs.CIDict.mutate_keeps_keys. Qed.
+Print Assumptions mutate_keeps_keys.
+
 (* ---- CaseInsensitiveSet ---- *)
 
 (* invariant: in every reachable set, _set is the key set of _keys, without repetition, and every
@@ -313,4 +332,14 @@ Example ex_multi :
   forallb (mop_wf str Z) ex_mops = true /\
   map (fun o => o_items str Z o) (snd (last (mrun str Z str_eqb lower [] [] ex_mops) (EOk RNone, []))) =
     [EOk [(s2l "Ab", 1%Z)]; EOk [(s2l "AB", 3%Z); (s2l "c", 2%Z)]; EOk [(s2l "Ab", 1%Z)]; EOk [(s2l "AB", 3%Z); (s2l "c", 2%Z)]].
+Proof. vm_compute. auto. Qed.
+
+(* a list factory: the default is mutated, a stored list is mutated, the next miss is pristine *)
+Example ex_mutate :
+  let ops := [OMutate (s2l "a") (mut_append 1); OGet (s2l "b"); OSet (s2l "A") seq_base; OMutate (s2l "a") (mut_append 7);
+              OMutate (s2l "A") (mut_append 3); OGet (s2l "zz")] in
+  let c := run_state str Z str_eqb lower (default_init str Z (FacVal seq_base)) ops in
+  map fst (run str Z str_eqb lower [] (default_init str Z (FacVal seq_base)) ops) =
+    [EOk RNone; EOk (RVal seq_base); EOk RNone; EOk RNone; EOk RNone; EOk (RVal seq_base)] /\
+  ci_items str Z str_eqb lower c = EOk [(s2l "A", (seq_base - 73)%Z)].
 Proof. vm_compute. auto. Qed.
